@@ -153,7 +153,8 @@ C04_OthersServed(s, e, d, r, role) ==
 
 \* canary label: every pod of the canary RS the sync read on a canary node gets (or has) the label ...
 C04_LabelOn(s, e, d, r, role) ==
-    (role = "canary" /\ FullSync(e) /\ AllOK({ w \in Writes(e) : w.kind = "Pod" /\ w.verb = "patch" })) =>
+    \* (a sync that finds the ExtendedDaemonSet not defaulted - the user has just edited its strategy - only records that and requeues)
+    (role = "canary" /\ FullSync(e) /\ GoodStrat(d) /\ AllOK({ w \in Writes(e) : w.kind = "Pod" /\ w.verb = "patch" })) =>
       \A p \in OwnPods(s, d) :
         (p.rsl = r.id /\ p.node \in CNodes(d) /\ Fits(s, p.node, r.tmpl) /\ Countable(p) /\ KP(s, d, p.node) = {p} /\ ~p.clabel /\ ~p.term
            /\ FailedOn(s, d, p.node) = {})
